@@ -61,7 +61,7 @@ func newReaderFromString(file string, data string) (*reader, error) {
 		file:   file,
 		rd:     bufio.NewReader(strings.NewReader(data)),
 	}
-	return &reader{readers: []*subreader{sr}, includePath: nil}, nil
+	return &reader{readers: []*subreader{sr}, includePath: nil, diffs: make(map[string]string)}, nil
 }
 
 func hasLocalDir(includePath []string) bool {
